@@ -12,6 +12,7 @@ Mk(n, feat, never, b) ==
 Feats == {"std", "alloc"}
 
 CfgsQuick ==
+  {[repoll |-> TRUE] @@ Mk(2, f, <<>>, B(FALSE, 1, 1, 1, 0, 0, 0, FALSE, FALSE, FALSE)) : f \in Feats} \cup
   {[reuse |-> TRUE] @@ Mk(2, f, <<>>, B(FALSE, 1, 1, 1, 0, 1, 0, FALSE, FALSE, FALSE)) : f \in Feats} \cup
   {Mk(2, f, <<>>, B(FALSE, 1, 2, 2, 1, 1, 1, TRUE, TRUE, TRUE)) : f \in Feats}
   \cup {Mk(2, f, <<1>>, B(FALSE, 1, 1, 2, 1, 1, 1, FALSE, FALSE, FALSE)) : f \in Feats}
